@@ -158,3 +158,25 @@ class TransactionMonitor(Monitor):
         self.res.probes["c18.exec.%s" % kind] += 1
         self.exec_created = None
         self._compare("execution:%s" % kind)
+
+
+class LiveTransactionMonitor(TransactionMonitor):
+    """World B: executions finish on pool tasks in any order relative to each other and to new requests. The shadow is fed
+    from the increments the execution layer reports (add_transaction); what is checked here is the hourly restart and the
+    blocking verdict under those interleavings (exactness of the increments themselves is C12.counts)."""
+
+    def on_exec_before(self, pkg):
+        pass
+
+    def on_exec_after(self, pkg):
+        self.res.probes["c18.live.exec_finished"] += 1
+
+    def on_add_transaction(self, control, count, failed):
+        sh = self._sh(control.client)
+        sh.total += count
+        if sh.hour is not None:
+            sh.hourly += count
+        if any(t.state.startswith("parked") for t in getattr(self.run, "tasks", ())):
+            self.res.probes["c18.live.count_added_while_other_call_in_flight"] += 1
+            self.res.nontrivial = True
+        self._compare("add_transaction")
